@@ -267,6 +267,18 @@ def run_case(ctx, c, terms=None):
                     pi = d.phase_indices()
                     rows = listlit([listlit([f"{int(v)}%nat" for v in r])
                                     for r in pi])
+                    # phase i of the window = samples i, i + cycle, ... over
+                    # the complete cycles counted from the window start
+                    ry = T_ // cy
+                    wantpi = np.array([np.arange(i, ry * cy, cy)
+                                       for i in range(cy)], dtype=int)
+                    if np.asarray(pi).shape != wantpi.shape or \
+                            not np.array_equal(np.asarray(pi), wantpi):
+                        ctx.violation("ClimateData.phase_indices",
+                                      "row i is not the samples of phase i "
+                                      "counted from the window start",
+                                      dict(wk, got=np.asarray(pi).tolist(),
+                                           want=wantpi.tolist()), {})
                     terms["pidx"].append(f"({T_}%nat, {cy}%nat, {rows})")
                     terms["pidx_meta"].append(wk)
             else:
